@@ -2,7 +2,8 @@
    Only statements here; the model is Model/Exposure.v, the proofs are in Proofs/Exposure.v.
    Gen_C02 (src_guards: the guard lists of Readout.__init__, the two Readout setters and
    ReadoutProperties.__init__;  src_empty: the table of Detector.empty(reset)) is regenerated from the
-   source on every run, and the theorems below are re-checked against it.
+   source on every run, and the theorems below are re-checked against it; so is src_set_readout (does
+   Detector.set_readout always install a NEW ReadoutProperties built from the readout it is given?).
 
    Reading guide.  [scenario A zero G E form times start nd ops prog d0] = construct a Readout, apply the
    caller's operations [ops] (setters / replace), call run_pipeline on a detector whose buckets hold [d0],
@@ -12,7 +13,7 @@
    [valid_scenario] = every schedule the caller installs on the way is valid (strictly increasing times,
    first time non-zero and later than the start time) and is given in list form. *)
 From Coq Require Import QArith ZArith List Bool Lia.
-From PyxelV Require Import Model.Exposure Proofs.Exposure Proofs.ExposureSpec.
+From PyxelV Require Import Model.Exposure Proofs.Exposure Proofs.ExposureSpec Proofs.ExposureSession.
 From PyxelGen Require Import Gen_C02.
 Import ListNotations.
 Open Scope Q_scope.
@@ -93,6 +94,115 @@ Proof. intros A zero. apply (scenario_no_leak A zero src_guards src_empty). vm_c
 Print Assumptions C02_no_leak.
 
 (* ------------------------------------------------------------------------------------------------ *)
+(* several runs on ONE detector object                                                                *)
+
+(* [scenario_st ... st] is the same run on the detector as an object in state [st] = its buckets AND the
+   ReadoutProperties object it carries from an earlier run (sampling arrays, start time, mode, running
+   clock — whatever an earlier run or the caller's assignments through public setters left there).  The
+   object-level run stores time / time_step / pipeline_count INTO that object and the models read the clock
+   FROM it.  Its outcome is the functional run above on the detector's buckets: nothing of the object the
+   detector carried is read.  Re-proved against the regenerated policy of Detector.set_readout. *)
+Theorem C02_run_on_object_refines :
+  forall (A : Type) (zero : A) f r s nd ops (prog : program A) (st : dstate A),
+  fst (scenario_st A zero src_guards src_empty src_set_readout f r s nd ops prog st)
+  = scenario A zero src_guards src_empty f r s nd ops prog (ds_det st).
+Proof. intros A zero. exact (scenario_st_new A zero src_guards src_empty). Qed.
+Print Assumptions C02_run_on_object_refines.
+
+(* no leak, object level: the outcome is independent of the WHOLE prior state of the detector — buckets and
+   ReadoutProperties object (times, steps, num_steps, start, mode, time, time_step, pipeline_count) *)
+Theorem C02_no_leak_object :
+  forall (A : Type) (zero : A) f r s nd ops (prog : program A) (st st' : dstate A),
+  fst (scenario_st A zero src_guards src_empty src_set_readout f r s nd ops prog st)
+  = fst (scenario_st A zero src_guards src_empty src_set_readout f r s nd ops prog st').
+Proof. intros A zero. apply (scenario_st_no_leak A zero src_guards src_empty). vm_compute. reflexivity. Qed.
+Print Assumptions C02_no_leak_object.
+
+(* sessions: any number of runs on one detector, each with its own readout (any construction history — the
+   same schedule again, only the start changed, only the mode changed, ...) and its own models, with
+   ARBITRARY changes of the detector state by the caller between the runs: run k has exactly the outcome of
+   the same scenario made alone on a blank detector *)
+Theorem C02_session_no_leak :
+  forall (A : Type) (zero : A) (runs : list (run_spec A)) (st : dstate A),
+  session A zero src_guards src_empty src_set_readout runs st
+  = map (run_alone A zero src_guards src_empty) runs.
+Proof. intros A zero. apply (session_no_leak A zero src_guards src_empty). vm_compute. reflexivity. Qed.
+Print Assumptions C02_session_no_leak.
+
+(* ... hence every clock field of every step of every valid run of every session is the closed form *)
+Theorem C02_session_clock :
+  forall (A : Type) (zero : A) (runs : list (run_spec A)) (st : dstate A) k r,
+  nth_error runs k = Some r -> rs_form r = FList ->
+  valid_scenario (rs_raw r) (rs_start r) (rs_nd r) (rs_ops r) ->
+  exists qs s0 trace,
+    r_times (final (rs_raw r) (rs_start r) (rs_nd r) (rs_ops r)) = R1 (map TQ qs)
+    /\ r_start (final (rs_raw r) (rs_start r) (rs_nd r) (rs_ops r)) = TQ s0
+    /\ nth_error (session A zero src_guards src_empty src_set_readout runs st) k = Some (Ran trace)
+    /\ length trace = length qs
+    /\ forall i o, nth_error trace i = Some o ->
+         c_time (o_clock o) = TQ (nth i qs 0)
+         /\ c_step (o_clock o) = TQ (nth i qs 0 - nth i (s0 :: qs) 0)
+         /\ c_abs (o_clock o) = TQ (s0 + nth i qs 0)
+         /\ c_count (o_clock o) = Z.of_nat i
+         /\ c_first (o_clock o) = Nat.eqb i 0
+         /\ c_last (o_clock o) = Nat.eqb (S i) (length qs).
+Proof. intros A zero. apply (session_clock A zero src_guards src_empty). vm_compute. reflexivity. Qed.
+Print Assumptions C02_session_clock.
+
+(* ... and so is the bucket state at the start of every step of every valid run of every session *)
+Theorem C02_session_step_start_buckets :
+  forall (A : Type) (zero : A) (runs : list (run_spec A)) (st : dstate A) k r,
+  nth_error runs k = Some r -> rs_form r = FList ->
+  valid_scenario (rs_raw r) (rs_start r) (rs_nd r) (rs_ops r) ->
+  exists trace,
+    nth_error (session A zero src_guards src_empty src_set_readout runs st) k = Some (Ran trace)
+    /\ forall i o, nth_error trace i = Some o ->
+         scene (o_begin o) = None /\ photon (o_begin o) = None /\ charge (o_begin o) = None
+         /\ signal (o_begin o) = None /\ image (o_begin o) = None
+         /\ pixel (o_begin o) =
+            match i with
+            | O => Some zero
+            | S j => if r_nd (final (rs_raw r) (rs_start r) (rs_nd r) (rs_ops r))
+                     then match nth_error trace j with Some p => pixel (o_end p) | None => Some zero end
+                     else Some zero
+            end.
+Proof. intros A zero. apply (session_step_start A zero src_guards src_empty). vm_compute. reflexivity. Qed.
+Print Assumptions C02_session_step_start_buckets.
+
+(* the hypothesis on Detector.set_readout is needed: a set_readout that keeps an object it already has lets
+   the previous run's sampling through (same readout, two prior states, different clocks) *)
+Example C02_ex_kept_object_leaks :
+  let ro_prev := {| r_times := R1 [TQ 1; TQ 2]; r_start := TQ 0; r_nd := false |} in
+  let st0 := {| ds_det := blank unit; ds_rp := None |} in
+  let st1 := {| ds_det := blank unit; ds_rp := rp_init src_guards ro_prev |} in
+  fst (scenario_st unit tt src_guards src_empty SRKeepExisting FList (R1 [TQ 1; TQ 2]) (TQ (1#2)) false []
+                   (fun _ d => d) st0)
+  <> fst (scenario_st unit tt src_guards src_empty SRKeepExisting FList (R1 [TQ 1; TQ 2]) (TQ (1#2)) false []
+                      (fun _ d => d) st1).
+Proof. vm_compute. intros H. discriminate H. Qed.
+
+(* non-vacuity of the session theorems: three runs on one detector — the same schedule twice with only the
+   start changed, then the other mode — with the caller overwriting the object's start time and clock in
+   between; the first-step time steps are 1 - 0, 1 - 1/2, 1 - 1/2 *)
+Example C02_ex_session :
+  let rs (s : Q) (nd : bool) : run_spec Z :=
+    {| rs_tamper := fun st => {| ds_det := ds_det st;
+                                 ds_rp := option_map (fun p => mkrp (rp_times p) (rp_steps p) (rp_num p) (TQ 7)
+                                                                    (rp_nd p) (TQ 5) (TQ 3) 9%Z) (ds_rp st) |};
+       rs_form := FList; rs_raw := R1 [TQ 1; TQ 3]; rs_start := TQ s; rs_nd := nd; rs_ops := [];
+       rs_prog := prog_of [[WAdd Pixel 2]; [WAdd Pixel 2]]%Z |} in
+  map (fun o => match o with
+                | Ran os => map (fun ob => (c_step (o_clock ob), c_abs (o_clock ob), pixel (o_begin ob))) os
+                | Rejected _ => []
+                end)
+      (session Z 0%Z src_guards src_empty src_set_readout [rs 0 false; rs (1#2) false; rs (1#2) true]
+               {| ds_det := blank Z; ds_rp := None |})
+  = [[(TQ 1, TQ 1, Some 0%Z); (TQ 2, TQ 3, Some 0%Z)];
+     [(TQ (1#2), TQ (3#2), Some 0%Z); (TQ 2, TQ (7#2), Some 0%Z)];
+     [(TQ (1#2), TQ (3#2), Some 0%Z); (TQ 2, TQ (7#2), Some 2%Z)]].
+Proof. vm_compute. reflexivity. Qed.
+
+(* ------------------------------------------------------------------------------------------------ *)
 (* invalid schedules                                                                                  *)
 
 (* full statement: whatever the caller does (constructor, then any setters / replace), if the schedule
@@ -165,11 +275,11 @@ Print Assumptions C02_oracle_validity.
    for every write plan and prior state: a case flagged by the oracle is a case where the implementation
    departs from what the theorems above describe *)
 Theorem C02_oracle_accepts_model :
-  forall r s nd ops plan d0 os,
+  forall r s nd ops plan d0 rp0 os,
   valid_scenario r s nd ops ->
   scenario Z 0%Z src_guards src_empty FList r s nd ops (prog_of plan) d0 = Ran os ->
   case_violates {| k_form := FList; k_raw := r; k_start := s; k_nd := nd; k_ops := ops; k_d0 := d0;
-                   k_plan := plan; k_obs := IRan os |} = false.
+                   k_rp0 := rp0; k_plan := plan; k_obs := IRan os |} = false.
 Proof. apply (oracle_accepts_model src_guards src_empty). vm_compute. reflexivity. Qed.
 Print Assumptions C02_oracle_accepts_model.
 
@@ -194,9 +304,10 @@ Qed.
 Example C02_ex_trace :
   let junk := {| scene := Some 9; photon := Some 9; charge := Some 9; pixel := Some 9; signal := Some 9;
                  image := Some 9 |}%Z in
-  match model_of src_guards src_empty
+  match model_of src_guards src_empty src_set_readout
           {| k_form := FList; k_raw := R1 [TQ (1#2); TQ 1; TQ 4]; k_start := TQ (-1); k_nd := true;
              k_ops := [OSetTimes (R1 [TQ 2; TQ 3; TQ (7#2)]); OSetStart (TQ 1)]; k_d0 := junk;
+             k_rp0 := Some (mkrp [TQ 7; TQ 8] [TQ 4; TQ 1] 2 (TQ 3) false (TQ 8) (TQ 1) 1);
              k_plan := [[WAdd Pixel 5; WSet Photon 7]; [WAdd Pixel 5; WSet Photon 7]; [WAdd Pixel 5]]%Z;
              k_obs := IRejected 0 0 |} with
   | Ran os =>
